@@ -81,7 +81,9 @@ RULE = ('round trips: shape classes (1xN, Nx1, square, non-square, odd/even; enu
         'all-zero / single-valid-sample (+, -, 0) / constant-or-zero with one NaN / one non-zero among zeros x dx exactly 0 or calibrated x routes'
         '.  OPTIONAL ARGUMENTS (class M): intensity= of write_zygo_dat / Interferogram in 8 dtypes x same / other shapes x layouts x non-finite / '
         'empty / None, meta= of another file, frames handed out by the reader of a file with 1-3 camera buckets (first / avg / last, re-typed), '
-        'comment= of write_codev_gridint (empty, blank, 80 characters, header keywords, digits, punctuation)')
+        'comment= of write_codev_gridint (empty, blank, 80 characters, header keywords, digits, punctuation).  OBJECT HISTORIES (class B, pass 5): '
+        'Interferogram built with dx calibrated / 0 / 1 / omitted, then scripted and random sequences (<= 6) of strip_latcal / latcal / pad / crop / '
+        'fill / mask / recenter / coordinate access / str / copy / wavelength assignment / earlier saves, then save_zygo_dat, read back by both readers')
 ASSUMPTIONS = ['the map handed to the writer is the reference; one quantisation step is lambda/32768 (Zygo, phase_res 1) and '
                '1000*WVL/|SSZ| nm as declared in the written Code V header, decoded by an independent parser',
                'single-precision allowance: when the data are float32, config.precision is 32 or the wavelength is a '
@@ -101,14 +103,17 @@ ASSUMPTIONS = ['the map handed to the writer is the reference; one quantisation 
                'arguments is not judged; files with a camera block are made by inserting 16-bit frames and the ac_* header fields into a written file',
                'documented defaults (table DEFAULTS, from the signatures and docstrings of the current tree): wavelength = 0.6328 um '
                '(HeNe), intensity = None, typ = SUR, nnb = False, dx = 0; a call that omits an argument must write a file that decodes '
-               '(independent decoder) to the same fields as the call that passes the default explicitly; the Zygo time stamp is not compared']
+               '(independent decoder) to the same fields as the call that passes the default explicitly; the Zygo time stamp is not compared',
+               'object histories: the reference of Interferogram.save_zygo_dat is the object\'s public data / dx / wavelength at the moment of the save (after '
+               'strip_latcal() that is dx = 1, pixel units); private flags are not consulted; objects left without a finite sample are excluded and counted']
 REQUIRED = ['roundtrip.zygo', 'roundtrip.codev', 'roundtrip.ifg', 'truncation.zygo', 'truncation.codev',
             'roundtrip.zygo.resave', 'roundtrip.ifg.resave', 'roundtrip.codev.resave',
             'history.zygo', 'history.ifg', 'history.codev', 'history.re-read',
             'writer.contract.zygo', 'writer.contract.codev', 'reader.contract', 'reader.contract.zygo-eq-decoder',
             'reader.contract.codev-eq-decoder', 'layout.zygo', 'layout.ifg', 'layout.codev', 'defaults.zygo', 'defaults.codev',
             'defaults.readers', 'defaults.omitted-eq-explicit', 'counts.codev', 'counts.zygo', 'counts.ifg', 'scales.codev', 'scales.zygo',
-            'scales.ifg', 'scales.codev.step-law', 'specials.codev', 'specials.zygo', 'specials.ifg', 'optargs.zygo', 'optargs.ifg', 'optargs.codev']
+            'scales.ifg', 'scales.codev.step-law', 'specials.codev', 'specials.zygo', 'specials.ifg', 'optargs.zygo', 'optargs.ifg', 'optargs.codev',
+            'objhistory.ifg', 'objhistory.ifg.dx-wavelength', 'objhistory.ifg.object-untouched']
 
 CTX = None
 F32 = 2.0 ** -23
@@ -1999,6 +2004,133 @@ def truncation(ctx, tmp):
              'config.precision = 32); every prefix length 0..len-1 enumerated')
 
 
+# ---------------------------------------------------------------------------------------------- object histories (class B, pass 5)
+OBJ_OPS = ['strip_latcal', 'latcal', 'latcal-same', 'pad-samples', 'pad-shape', 'pad-value', 'crop', 'fill', 'mask', 'recenter', 'coords',
+           'polar', 'str', 'copy', 'set-wavelength', 'save', 'save-handle']
+OBJ_CAL_OPS = ('strip_latcal', 'latcal', 'latcal-same', 'pad-samples', 'pad-shape', 'pad-value')      # ops that touch the calibration state
+OBJ_SCRIPTS = [(), ('strip_latcal',), ('latcal',), ('latcal-same',), ('latcal', 'strip_latcal'), ('strip_latcal', 'latcal'),
+               ('strip_latcal', 'strip_latcal'), ('latcal', 'latcal'), ('strip_latcal', 'latcal', 'strip_latcal'),
+               ('pad-samples',), ('pad-shape',), ('pad-value',), ('pad-samples', 'strip_latcal'), ('strip_latcal', 'pad-samples'),
+               ('strip_latcal', 'pad-shape', 'strip_latcal'), ('crop',), ('crop', 'strip_latcal'), ('strip_latcal', 'crop'),
+               ('pad-samples', 'crop'), ('fill',), ('fill', 'strip_latcal'), ('mask',), ('mask', 'crop', 'pad-shape'),
+               ('strip_latcal', 'mask', 'fill'), ('coords', 'strip_latcal', 'str'), ('polar', 'latcal', 'recenter'),
+               ('coords', 'crop', 'strip_latcal'), ('copy', 'strip_latcal'), ('strip_latcal', 'copy'), ('save', 'strip_latcal'),
+               ('strip_latcal', 'save'), ('strip_latcal', 'save-handle', 'latcal'), ('latcal', 'save', 'strip_latcal', 'save'),
+               ('set-wavelength',), ('set-wavelength', 'strip_latcal'), ('strip_latcal', 'set-wavelength', 'pad-samples'),
+               ('str', 'strip_latcal', 'str')]
+OBJ_START_DX = ['calibrated', 'dx0', 'dx1', 'default']
+
+
+def _obj_apply(ifg, op, rng, tmp, tag):
+    """Apply one public Interferogram operation; returns the object to go on with (copy() hands out a new one)."""
+    if op == 'strip_latcal':
+        ifg.strip_latcal()
+    elif op == 'latcal':
+        ifg.latcal(float(10 ** rng.uniform(-3, 1)))
+    elif op == 'latcal-same':
+        ifg.latcal(ifg.dx)
+    elif op == 'pad-samples':
+        ifg.pad(samples=int(rng.integers(1, 4)))
+    elif op == 'pad-shape':
+        ifg.pad(shape=(ifg.data.shape[0] + int(rng.integers(0, 3)), ifg.data.shape[1] + int(rng.integers(1, 4))))
+    elif op == 'pad-value':
+        ifg.pad(0.0, samples=(int(rng.integers(0, 3)), int(rng.integers(1, 3))))
+    elif op == 'crop':
+        ifg.crop()
+    elif op == 'fill':
+        ifg.fill(float(rng.uniform(-5, 5)))
+    elif op == 'mask':
+        m = rng.uniform(size=ifg.data.shape) > 0.25
+        m.flat[int(rng.integers(m.size))] = True
+        ifg.mask(m)
+    elif op == 'recenter':
+        ifg.recenter()
+    elif op == 'coords':
+        _ = ifg.x, ifg.y
+    elif op == 'polar':
+        _ = ifg.r, ifg.t
+    elif op == 'str':
+        with warnings.catch_warnings():
+            warnings.simplefilter('ignore')
+            try:
+                str(ifg)
+            except Exception:  # noqa (pretty-printing is not the subject)
+                pass
+    elif op == 'copy':
+        ifg = ifg.copy()
+    elif op == 'set-wavelength':
+        ifg.wavelength = float(rng.uniform(0.4, 10.6))
+    elif op == 'save':
+        ifg.save_zygo_dat(os.path.join(tmp, f'{tag}_mid.dat'))
+    elif op == 'save-handle':
+        with open(os.path.join(tmp, f'{tag}_mid.dat'), 'wb') as fh:
+            ifg.save_zygo_dat(fh)
+    return ifg
+
+
+def object_histories(ctx, tmp):
+    """An Interferogram is built, taken through a sequence of its own public operations that change the calibration state / the geometry /
+    the data (strip_latcal, latcal, pad, crop, fill, mask, recenter, coordinate access, copy, attribute assignment, earlier saves), and then
+    written with the method-form writer.  The reference is the object's *current* data / dx / wavelength (public attributes, read just
+    before the save); the file is read back through Interferogram.from_zygo_dat and through read_zygo_dat and judged by the ordinary
+    round-trip oracle.  The save must leave the object as it was."""
+    from prysm.interferogram import Interferogram
+    nrand = ctx.pick(60, 4000)
+    seqs = [(f'script{i}', ops) for i, ops in enumerate(OBJ_SCRIPTS)]
+    rs = np.random.default_rng([ctx.seed, 140015])
+    for i in range(nrand):
+        seqs.append(('random', tuple(OBJ_OPS[int(rs.integers(len(OBJ_OPS)))] for _ in range(int(rs.integers(1, 7))))))
+    excluded = 0
+    k = 0
+    for si, (sname, ops) in enumerate(seqs):
+        starts = OBJ_START_DX if sname != 'random' else [OBJ_START_DX[si % len(OBJ_START_DX)]]
+        for start in starts:
+            k += 1
+            if not ctx.mine(k):
+                continue
+            rng = np.random.default_rng([ctx.seed, 1415, si, OBJ_START_DX.index(start)])
+            dt, prec = CFGS[k % len(CFGS)] if sname == 'random' or k % 3 == 0 else CFGS[0]
+            wl = float(rng.uniform(0.4, 1.1)) if k % 4 else 0.6328
+            dx0 = {'calibrated': float(10 ** rng.uniform(-3, 1)), 'dx0': 0.0, 'dx1': 1.0, 'default': None}[start]
+            shape = (int(rng.integers(3, 12)), int(rng.integers(3, 12)))
+            ncls = NAN_CLASSES[int(rng.integers(4))]
+            z = _hist_map(rng, shape, ['mixed', 'pos-large', 'neg', 'pos-small'][int(rng.integers(4))], ncls, wl, 'zygo').astype(dt)
+            calops = [o for o in ops if o in OBJ_CAL_OPS]
+            state = 'after:' + (calops[-1] if calops else 'no-calibration-op')
+            desc = {'wl': 'object-history', 'script': sname, 'ops': list(ops), 'start_dx': start, 'shape': list(shape), 'wavelength': wl,
+                    'dtype': dt, 'precision': prec, 'nan': ncls, 'k': k, 'class': f'object-history:{start}:{state}:{"+".join(ops[-3:])}'}
+            ctx.case(desc)
+
+            def okey(fmt, what, state=state):
+                k0 = fired(ctx, f'C14/{fmt}/{what.split("/")[0]}')
+                return k0 if k0 is not None else f'C14/{fmt}/object-history/{state}/{what}'
+
+            with precision(prec), warnings.catch_warnings(), ctx.guard(f'C14/ifg/object-history/{state}', desc):
+                warnings.simplefilter('ignore')
+                ifg = Interferogram(z.copy(), wavelength=wl) if dx0 is None else Interferogram(z.copy(), dx=dx0, wavelength=wl)
+                for oi, op in enumerate(ops):
+                    ifg = _obj_apply(ifg, op, rng, tmp, f'o{ctx.shard}')
+                cur = np.array(ifg.data, copy=True)
+                dxc, wlc = float(ifg.dx), float(ifg.wavelength)
+                if cur.ndim != 2 or cur.size < 1 or not np.isfinite(cur).any() or not np.isfinite(dxc) or not wlc > 0:
+                    excluded += 1        # the operations left no height map with a finite sample: outside the domain
+                    continue
+                desc.update(dx=dxc, wavelength=wlc, shape_now=list(cur.shape))
+                path = os.path.join(tmp, f'o{ctx.shard}.dat')
+                if k % 5 == 0:
+                    ifg.save_zygo_dat(pathlib.Path(path))
+                else:
+                    ifg.save_zygo_dat(path)
+                ctx.require('objhistory.ifg.object-untouched',
+                            np.array_equal(np.asarray(ifg.data), cur, equal_nan=True) and float(ifg.dx) == dxc and float(ifg.wavelength) == wlc,
+                            f'C14/ifg/object-history/{state}/save-changes-object', 'save_zygo_dat changed the data / dx / wavelength of the object it saved', desc)
+                for route in ('ifg', 'io'):
+                    got, dx2, wl2, _ = read_zygo(path, route)
+                    judge_zygo(ctx, tmp, path, dict(desc, read_route=route), cur, dxc, wlc, got, dx2, wl2, 'ifg', 'objhistory.ifg', okey, orig=ifg.data)
+    ctx.note('object_histories', f'{len(OBJ_SCRIPTS)} scripted x {len(OBJ_START_DX)} starting calibrations + {nrand} random sequences of Interferogram '
+             f'operations before save_zygo_dat; {excluded} excluded in this shard (no finite sample left)')
+
+
 # ---------------------------------------------------------------------------------------------- run
 def run(ctx):
     global CTX
@@ -2018,6 +2150,7 @@ def run(ctx):
             optargs(ctx, tmp)            # class M: optional blocks (intensity= / meta= / comment=) in hostile states
             truncation(ctx, tmp)
             histories(ctx, tmp)          # after the round trips: a failure they already showed is not a history effect
+            object_histories(ctx, tmp)   # class B (pass 5): Interferogram operations before the method-form writer
             foreign_traffic(ctx, tmp)    # class F: other consumers of the shared header table / configuration, then ...
             defaults(ctx, tmp)
             layouts(ctx, tmp) if ctx.quick else None      # ... the layout block once more after all that traffic (quick: it is small)
